@@ -71,3 +71,33 @@ n_harness! { 30, fn pn_bulk_cutloop1() {
         cut += 1;
     }
 } }
+n_harness! { 30, fn pn_arr_int() {
+    let b = *b"*1\r\n:7\r\nXYZ";
+    let mut c = Cursor::new(&b[..]);
+    let r = Frame::check(&mut c);
+    assert!(r.is_ok());
+    assert!(c.position() == 8);
+    c.set_position(0);
+    let p = Frame::parse(&mut c);
+    assert!(p.is_ok());
+    std::mem::forget(p);
+    std::mem::forget(r);
+} }
+n_harness! { 30, fn pn_arr_simple() {
+    let b = *b"*1\r\n+a\r\nXYZ";
+    let mut c = Cursor::new(&b[..]);
+    let r = Frame::check(&mut c);
+    assert!(r.is_ok());
+    c.set_position(0);
+    let p = Frame::parse(&mut c);
+    assert!(p.is_ok());
+    std::mem::forget(p);
+    std::mem::forget(r);
+} }
+n_harness! { 30, fn pn_arr_int_checkonly() {
+    let b = *b"*1\r\n:7\r\nXYZ";
+    let mut c = Cursor::new(&b[..]);
+    let r = Frame::check(&mut c);
+    assert!(r.is_ok());
+    std::mem::forget(r);
+} }
